@@ -3,30 +3,79 @@ package main
 import (
 	"fmt"
 	"go/ast"
+	"go/token"
 	"path/filepath"
 	"strings"
 )
 
 // flatStmts renders the statements of a function body in order, one string per statement; the bodies of
 // if statements are inlined between "if <cond> {" and "}" markers.
+//
+// Normalisations (each preserves the meaning of the statement list):
+//   - `a, b = 0, 0` with literal right-hand sides is written as two assignments;
+//   - a call `recv.helper()` without arguments to a method of the same receiver type is replaced by the
+//     statements of that method (flatMethods is set by the caller);
+//   - an early exit `if x == y { return ... }` followed by more statements is written as
+//     `if x != y { <the following statements> }` followed by the return.
 func flatStmts(body *ast.BlockStmt) []string {
+	return flatStmtsOf(body, "", 0)
+}
+
+// flatMethods: the methods that may be inlined by flatStmtsOf (receiver type, name)
+var flatMethods = map[methodKey]*ast.FuncDecl{}
+
+func flatStmtsOf(body *ast.BlockStmt, recv string, depth int) []string {
 	res := []string{}
 	var walk func(stmts []ast.Stmt)
 	walk = func(stmts []ast.Stmt) {
-		for _, s := range stmts {
+		for i, s := range stmts {
 			switch v := s.(type) {
 			case *ast.AssignStmt:
 				l, r := []string{}, []string{}
+				allLit := len(v.Lhs) == len(v.Rhs) && len(v.Lhs) > 1
 				for _, e := range v.Lhs {
 					l = append(l, exprString(e))
 				}
 				for _, e := range v.Rhs {
 					r = append(r, exprString(e))
+					if _, isLit := e.(*ast.BasicLit); !isLit {
+						allLit = false
+					}
+				}
+				if allLit {
+					for k := range l {
+						res = append(res, l[k]+" = "+r[k])
+					}
+					continue
 				}
 				res = append(res, strings.Join(l, ", ")+" = "+strings.Join(r, ", "))
 			case *ast.ExprStmt:
+				if call, ok := v.X.(*ast.CallExpr); ok && len(call.Args) == 0 && recv != "" && depth < 3 {
+					if sel, ok := call.Fun.(*ast.SelectorExpr); ok {
+						if _, isIdent := sel.X.(*ast.Ident); isIdent {
+							if fd, ok := flatMethods[methodKey{recv, sel.Sel.Name}]; ok && fd.Body != nil && fd.Type.Results == nil {
+								res = append(res, flatStmtsOf(fd.Body, recv, depth+1)...)
+								continue
+							}
+						}
+					}
+				}
 				res = append(res, exprString(v.X))
 			case *ast.IfStmt:
+				if be, ok := v.Cond.(*ast.BinaryExpr); ok && be.Op == token.EQL && v.Else == nil && v.Init == nil &&
+					len(v.Body.List) == 1 && i+1 < len(stmts) {
+					if ret, ok := v.Body.List[0].(*ast.ReturnStmt); ok {
+						res = append(res, "if "+exprString(be.X)+" != "+exprString(be.Y)+" {")
+						walk(stmts[i+1:])
+						res = append(res, "}")
+						r := []string{}
+						for _, e := range ret.Results {
+							r = append(r, exprString(e))
+						}
+						res = append(res, "return "+strings.Join(r, ", "))
+						return
+					}
+				}
 				res = append(res, "if "+exprString(v.Cond)+" {")
 				walk(v.Body.List)
 				if v.Else != nil {
@@ -112,6 +161,10 @@ func classifyReset(st string) string {
 		return ".clearStats"
 	}
 	if lr := strings.SplitN(st, " = ", 2); len(lr) == 2 && pureRef(lr[0]) {
+		if v, isConst := cpuConsts[lr[1]]; isConst {
+			// a named constant of the package: its literal value
+			lr[1] = v
+		}
 		zero := lr[1] == "0" || lr[1] == "0x00" || lr[1] == "0x0000"
 		switch lastSel(lr[0]) {
 		case "cycleCount":
@@ -215,6 +268,31 @@ func collectBookkeepingHelpers(m map[methodKey]*ast.FuncDecl) {
 	}
 }
 
+// cpuConsts: package-level constants of package cpu that are initialised with a literal (name -> literal)
+var cpuConsts = map[string]string{}
+
+func collectConsts(files map[string]*ast.File, into map[string]string) {
+	for _, f := range files {
+		for _, d := range f.Decls {
+			gd, ok := d.(*ast.GenDecl)
+			if !ok || gd.Tok != token.CONST {
+				continue
+			}
+			for _, sp := range gd.Specs {
+				if vs, ok := sp.(*ast.ValueSpec); ok {
+					for i, n := range vs.Names {
+						if i < len(vs.Values) {
+							if bl, ok := vs.Values[i].(*ast.BasicLit); ok {
+								into[n.Name] = bl.Value
+							}
+						}
+					}
+				}
+			}
+		}
+	}
+}
+
 func leanSteps(stmts []string, classify func(string) string) string {
 	parts := []string{}
 	for _, s := range stmts {
@@ -228,17 +306,25 @@ func doFlow(repo, outDir string) {
 	b.WriteString(header)
 	b.WriteString("import Verif.Impl.Provider\nnamespace Verif.Generated\nopen Verif.Impl\n\n")
 	ok := true
-	cpuM := methodsOf(parseDir(filepath.Join(repo, "cpu")))
+	cpuFiles := parseDir(filepath.Join(repo, "cpu"))
+	collectConsts(cpuFiles, cpuConsts)
+	cpuM := methodsOf(cpuFiles)
 	ceM := methodsOf(parseDir(filepath.Join(repo, "caseexec")))
+	for k, v := range cpuM {
+		flatMethods[k] = v
+	}
+	for k, v := range ceM {
+		flatMethods[k] = v
+	}
 	collectBookkeepingHelpers(ceM)
 	if fd, found := cpuM[methodKey{"CPU6502", "Reset"}]; found {
-		fmt.Fprintf(&b, "/-- the statements of cpu.CPU6502.Reset, in order -/\ndef resetSteps : List ResetStep := %s\n\n", leanSteps(flatStmts(fd.Body), classifyReset))
+		fmt.Fprintf(&b, "/-- the statements of cpu.CPU6502.Reset, in order -/\ndef resetSteps : List ResetStep := %s\n\n", leanSteps(flatStmtsOf(fd.Body, "CPU6502", 0), classifyReset))
 	} else {
 		fail("flow", "CPU6502.Reset not found")
 		ok = false
 	}
 	if fd, found := ceM[methodKey{"snapshotCpuProvider", "NewCpu"}]; found {
-		fmt.Fprintf(&b, "/-- the statements of caseexec.snapshotCpuProvider.NewCpu, in order -/\ndef snapshotNewCpuSteps : List ProvStep := %s\n\n", leanSteps(flatStmts(fd.Body), classifyProv))
+		fmt.Fprintf(&b, "/-- the statements of caseexec.snapshotCpuProvider.NewCpu, in order -/\ndef snapshotNewCpuSteps : List ProvStep := %s\n\n", leanSteps(flatStmtsOf(fd.Body, "snapshotCpuProvider", 0), classifyProv))
 	} else {
 		fail("flow", "snapshotCpuProvider.NewCpu not found")
 		ok = false
